@@ -275,11 +275,11 @@ package components
 //@   atcall (*OutPort).Send outputs-sent-only-after-every-input-was-written[C19]: chanRecvN(p.inPorts["in"].Chan) == chanTotal(p.inPorts["in"].Chan)
 //@   atcall (*os.File).Write writes-the-content-just-read-or-its-newline-to-the-file-of-its-group[C19]: ($arg1 == dat || $arg1 == "\n") && (tagVal != "" ==> $arg0 == outFhsByTag[tagVal])
 //@   assumecall (*FileIP).AddTag the-new-group-ip-has-a-record: ptr(FileIP, $arg0).auditInfo != nil
-//@   loop 0 invariant stable: p == old(p) && p.outPorts == old(p.outPorts) && p.inPorts == old(p.inPorts) && wfSrcOut(p.BaseProcess, "out") && "in" in p.inPorts && p.inPorts["in"] != nil && p.inPorts["in"].Chan != nil && outIPsByTag != nil && outFhsByTag != nil && validIP(outIP) && (forall k string :: k in outIPsByTag ==> validIP(outIPsByTag[k]))
-//@   loop 1 invariant stable: p == old(p) && p.outPorts == old(p.outPorts) && p.inPorts == old(p.inPorts) && wfSrcOut(p.BaseProcess, "out")
+//@   loop 0 invariant stable: p == old(p) && p.outPorts == old(p.outPorts) && p.inPorts == old(p.inPorts) && p.inPorts["in"] == old(p.inPorts["in"]) && p.inPorts["in"].Chan == old(p.inPorts["in"].Chan) && wfSrcOut(p.BaseProcess, "out") && "in" in p.inPorts && p.inPorts["in"] != nil && p.inPorts["in"].Chan != nil && outIPsByTag != nil && outFhsByTag != nil && validIP(outIP) && (forall k string :: k in outIPsByTag ==> validIP(outIPsByTag[k]))
+//@   loop 1 invariant stable: p == old(p) && p.outPorts == old(p.outPorts) && p.inPorts == old(p.inPorts) && p.inPorts["in"] == old(p.inPorts["in"]) && p.inPorts["in"].Chan == old(p.inPorts["in"].Chan) && wfSrcOut(p.BaseProcess, "out")
 //@   loop 1 invariant drained: chanRecvN(p.inPorts["in"].Chan) == chanTotal(p.inPorts["in"].Chan)
 //@   loop 1 invariant out-valid: validIP(outIP) && outIPsByTag != nil
 //@   loop 1 invariant tagged-valid: forall k string :: k in outIPsByTag ==> validIP(outIPsByTag[k])
-//@   loop 2 invariant drained: p == old(p) && p.outPorts == old(p.outPorts) && p.inPorts == old(p.inPorts) && wfSrcOut(p.BaseProcess, "out") && chanRecvN(p.inPorts["in"].Chan) == chanTotal(p.inPorts["in"].Chan) && outIPsByTag != nil && (forall k string :: k in outIPsByTag ==> validIP(outIPsByTag[k]))
+//@   loop 2 invariant drained: p == old(p) && p.outPorts == old(p.outPorts) && p.inPorts == old(p.inPorts) && p.inPorts["in"] == old(p.inPorts["in"]) && p.inPorts["in"].Chan == old(p.inPorts["in"].Chan) && wfSrcOut(p.BaseProcess, "out") && chanRecvN(p.inPorts["in"].Chan) == chanTotal(p.inPorts["in"].Chan) && outIPsByTag != nil && (forall k string :: k in outIPsByTag ==> validIP(outIPsByTag[k]))
 //@   loop 0 step untagged-arrival-appends-content-then-newline[C19]: tagVal == "" ==> fwN[outFh] == prev(fwN)[outFh] + 2 && fwAt[outFh][prev(fwN)[outFh]] == dat && fwAt[outFh][prev(fwN)[outFh] + 1] == "\n" && dat == fileBytes(inIP.path, fsEpoch)
 //@   loop 0 step earlier-content-kept[C19]: tagVal == "" ==> forall j int :: 0 <= j && j < prev(fwN)[outFh] ==> fwAt[outFh][j] == prev(fwAt)[outFh][j]
